@@ -289,6 +289,7 @@ func init() {
 		u.MaxAttempts, u.MaxFail = 2, 1
 		u.PodActions = fullPod
 		u.Kill, u.MaxKill, u.Unkill = []string{"0", "30"}, 1, true
+		u.Horizon = 1000 // the pending-timeout timer at +900 provides an instant after the kill time
 		add(u)
 		s := jobBase("none-notstarted-kill")
 		s.NotStarted = true
